@@ -121,7 +121,7 @@ class WorkBudgetExceeded(BaseException):
     CPU time relative to a yardstick loop (`cpu_check`)."""
 
 
-WATCHDOG_S = 4.0
+WATCHDOG_S = 10.0  # CPU seconds; the most expensive legitimate decode (648 records x 127 uncached hops, line-traced) takes about 2.7
 
 
 def _watchdog(signum, frame):
@@ -129,6 +129,24 @@ def _watchdog(signum, frame):
 
 
 LISTENER_ARGS = (("192.0.2.7", 5353), 3, 1000000.0)  # source, scope_id, now -- as _listener.py:147 passes them
+# what `AsyncListener` hands over: source is always (addr, port); scope_id is None for an IPv4 socket and the receiving interface's
+# index (0 included) for an IPv6 one; `now` is the loop's millisecond clock
+LISTENER_V4 = (("192.0.2.7", 5353), None, 1000000.0)
+LISTENER_V6 = (("fe80::1", 5353), 3, 1000000.0)
+LISTENER_V6_SCOPE0 = (("2001:db8::7", 49152), 0, 1700000000123.5)
+LISTENER_VARIANTS = (LISTENER_V4, LISTENER_V6, LISTENER_V6_SCOPE0, LISTENER_ARGS)
+
+
+def largs_of(x):
+    """normalise a listener-argument choice: False/None -> () (plain `DNSIncoming(data)`), True -> LISTENER_ARGS, a (source, scope_id, now)
+    triple (tuple or the list a replay file holds) -> that triple"""
+    if not x:
+        return ()
+    if x is True:
+        return LISTENER_ARGS
+    src, scope, now = x
+    return (tuple(src) if src is not None else None, scope, now)
+
 
 WORK_KEYS = ("questions", "records", "bm_calls", "bm_iters", "bm_bits", "bm_types")
 _loops = {}
@@ -137,9 +155,10 @@ _loops = {}
 def loop_lines():
     """Locate, in the source of the tree under test, the loops a datagram drives besides the name decoder: the first
     body line of the `for` loops of `_read_questions` / `_read_others`, and in `_read_bitmap` the first body line of
-    the `while`, the bit test and the append.  Found through the AST (first loop among the direct children, so an
-    added statement or a moved line does not break the measurement).  -> {code: {lineno: index into the counter
-    list}} or None when the shape is not there (then the loop counters are not measured and only `steps` is)."""
+    the `while`, the bit test and the append.  Found through the AST: the first loop of the kind in source order *anywhere* in the
+    function (an added statement, a moved line, a wrapping `if`/`try`/`with` do not break the measurement).  -> {code: {lineno:
+    index into the counter list}} or None when no such loop exists: then neither the loop counters nor the line budget can be
+    evaluated, and `run` reports that as a **broken tie** (stream `loop-shape`), never silently (third review, finding 4)."""
     if "v" in _loops:
         return _loops["v"]
     import ast
@@ -149,10 +168,13 @@ def loop_lines():
     cls = impl()["inc"].DNSIncoming
 
     def first(stmts, kind):
+        """first node of `kind` in source order, at any depth below `stmts`"""
+        best = None
         for s in stmts:
-            if isinstance(s, kind):
-                return s
-        return None
+            for n in ast.walk(s):
+                if isinstance(n, kind) and (best is None or (n.lineno, n.col_offset) < (best.lineno, best.col_offset)):
+                    best = n
+        return best
 
     out = {}
     try:
@@ -172,9 +194,59 @@ def loop_lines():
             raise ValueError("loop lines of _read_bitmap coincide")
         out[fn.__code__] = lines
         _loops["bm_code"] = fn.__code__
-    except Exception:  # noqa: BLE001 - a tree whose loops look different: measured by `steps` only
+    except Exception:  # noqa: BLE001 - a tree without these loops: a broken tie, reported by `run`
         out = None
     _loops["v"] = out
+    return out
+
+
+_sites = {}
+
+
+def raise_sites():
+    """Every place of `DNSIncoming` where an exception can start or is caught (third review, finding 2), from the AST of the tree
+    under test: each `raise` statement (`raise:<function>:<k>`), each `except` handler (`except:<function>:<k>`) and, per function that
+    subscripts the byte view, the IndexError such a subscript raises (`index:<function>`).
+    -> {"required": {site: text}, "lines": {code: {lineno: site}}, "index": {code: site}} (empty dicts if the class cannot be read)"""
+    if "v" in _sites:
+        return _sites["v"]
+    import ast
+
+    inc = impl()["inc"]
+    out = {"required": {}, "lines": {}, "index": {}}
+    try:
+        tree = ast.parse(open(inc.__file__).read())
+        cdef = next(n for n in tree.body if isinstance(n, ast.ClassDef) and n.name == "DNSIncoming")
+        for fn in cdef.body:
+            if not isinstance(fn, ast.FunctionDef):
+                continue
+            obj = inc.DNSIncoming.__dict__.get(fn.name)
+            obj = getattr(obj, "fget", None) or getattr(obj, "__func__", None) or obj
+            code = getattr(obj, "__code__", None)
+            if code is None:
+                continue
+            m, k = {}, {"raise": 0, "except": 0}
+            for n in sorted((n for n in ast.walk(fn) if isinstance(n, (ast.Raise, ast.ExceptHandler))), key=lambda n: (n.lineno, n.col_offset)):
+                kind = "raise" if isinstance(n, ast.Raise) else "except"
+                k[kind] += 1
+                site = "%s:%s:%d" % (kind, fn.name, k[kind])
+                if kind == "raise":
+                    for ln in range(n.lineno, n.end_lineno + 1):
+                        m[ln] = site
+                else:
+                    m[n.body[0].lineno] = site
+                out["required"][site] = "line %d: %s" % (n.lineno, " ".join(ast.unparse(n).split())[:100])
+            for n in ast.walk(fn):
+                if (isinstance(n, ast.Subscript) and not isinstance(n.slice, ast.Slice)
+                        and (isinstance(n.value, ast.Name) and n.value.id == "view" or isinstance(n.value, ast.Attribute) and n.value.attr == "view")):
+                    out["index"][code] = "index:%s" % fn.name
+                    out["required"]["index:%s" % fn.name] = "IndexError out of a subscript of the byte view in %s" % fn.name
+                    break
+            if m:
+                out["lines"][code] = m
+    except Exception:  # noqa: BLE001
+        out = {"required": {}, "lines": {}, "index": {}}
+    _sites["v"] = out
     return out
 
 
@@ -185,8 +257,9 @@ def pkg_prefix():
 
 
 def observe(data: bytes, count_reads=False, listener_args=False, steps=False):
-    """run the real decoder; -> dict(status, exc, counters, obj).  With `steps`: also `steps` (source lines of the
-    zeroconf package executed, one more per call) and `work` (the loop counters of WORK_KEYS, None if not measurable)"""
+    """run the real decoder; -> dict(status, exc, counters, obj).  `listener_args`: False = `DNSIncoming(data)`, True = LISTENER_ARGS, or a
+    (source, scope_id, now) triple.  With `steps`: also `steps` (source lines of the zeroconf package executed, one more per call),
+    `work` (the loop counters of WORK_KEYS, None if not measurable) and `sites` (raise / except / IndexError sites reached)"""
     import signal
 
     old = signal.signal(signal.SIGVTALRM, _watchdog)
@@ -197,34 +270,45 @@ def observe(data: bytes, count_reads=False, listener_args=False, steps=False):
         sys.setprofile(None)
         sys.settrace(None)
         return {"status": "nontermination", "exc": "WorkBudgetExceeded", "names": 0, "acts": 0, "depth": 0, "obj": None, "reads": 0,
-                "steps": None, "work": None}
+                "steps": None, "work": None, "largs": largs_of(listener_args) or None}
     finally:
         signal.setitimer(signal.ITIMER_VIRTUAL, 0)
         signal.signal(signal.SIGVTALRM, old)
 
 
-def _line_tracer(lc):
-    """-> (global trace function, lc) counting into lc = [steps, questions, records, bm_calls, bm_iters, bm_bits, bm_types]"""
+def _line_tracer(lc, hit):
+    """-> global trace function counting into lc = [steps, questions, records, bm_calls, bm_iters, bm_bits, bm_types] and adding the
+    raise / except / IndexError sites reached to the set `hit`"""
     special = loop_lines() or {}
     bm_code = _loops.get("bm_code")
     prefix = pkg_prefix()
+    rs = raise_sites()
 
     def plain(frame, event, arg):
         if event == "line":
             lc[0] += 1
         return plain
 
-    def mk(m):
+    def mk(m, sm, isite):
         def sp(frame, event, arg):
             if event == "line":
                 lc[0] += 1
-                i = m.get(frame.f_lineno)
+                ln = frame.f_lineno
+                i = m.get(ln)
                 if i is not None:
                     lc[i] += 1
+                st = sm.get(ln)
+                if st is not None:
+                    hit.add(st)
+            elif event == "exception" and isite is not None and arg[2] is not None and issubclass(arg[0], IndexError):
+                nxt = arg[2].tb_next  # the exception starts here: nothing below, or only the counting `bytes` subclass of this harness
+                if nxt is None or nxt.tb_frame.f_code is CountingBytes.__getitem__.__code__:
+                    hit.add(isite)
             return sp
         return sp
 
-    sps = {code: mk(m) for code, m in special.items()}
+    sps = {code: mk(special.get(code, {}), rs["lines"].get(code, {}), rs["index"].get(code))
+           for code in set(special) | set(rs["lines"]) | set(rs["index"])}
 
     def tracer(frame, event, arg):
         co = frame.f_code
@@ -244,7 +328,9 @@ def _observe(data: bytes, count_reads=False, listener_args=False, steps=False):
     dec_code, name_code = I["dec_code"], I["name_code"]
     cnt = [0, 0, 0, 0]  # names, acts, depth, maxdepth
     lc = [0] * 7
-    tracer = _line_tracer(lc) if steps else None
+    hit = set()
+    tracer = _line_tracer(lc, hit) if steps else None
+    largs = largs_of(listener_args)
 
     def prof(frame, event, arg):
         if event == "call":
@@ -274,7 +360,7 @@ def _observe(data: bytes, count_reads=False, listener_args=False, steps=False):
         sys.settrace(tracer)
     try:
         try:
-            m = inc.DNSIncoming(data, *LISTENER_ARGS) if listener_args else inc.DNSIncoming(data)
+            m = inc.DNSIncoming(data, *largs)
         except (WorkBudgetExceeded, KeyboardInterrupt):
             raise
         except BaseException as e:  # noqa: BLE001 - the property is about *any* exception (SystemExit and the like included)
@@ -314,7 +400,7 @@ def _observe(data: bytes, count_reads=False, listener_args=False, steps=False):
     # bounds its own memory by emptying the dict; the growth itself, and decoding with a full memo, are the business of `seen_logs_stream`
     if len(inc._seen_logs) > 2000:
         inc._seen_logs.clear()
-    out = {"status": status, "exc": exc, "names": cnt[0], "acts": cnt[1], "depth": cnt[3], "obj": obj}
+    out = {"status": status, "exc": exc, "names": cnt[0], "acts": cnt[1], "depth": cnt[3], "obj": obj, "largs": largs or None}
     if second is not None:
         out["second"] = second
     if count_reads:
@@ -322,6 +408,7 @@ def _observe(data: bytes, count_reads=False, listener_args=False, steps=False):
     if steps:
         out["steps"] = lc[0]
         out["work"] = tuple(lc[1:]) if loop_lines() is not None else None
+        out["sites"] = frozenset(hit)
     return out
 
 
@@ -383,13 +470,14 @@ def yardstick(fresh=False):
 
 
 def cpu_seconds(data, listener_args=False):
+    listener_args = largs_of(listener_args)
     """CPU time of one untraced DNSIncoming(data) + answers()"""
     import time
 
     inc = impl()["inc"]
     t = time.process_time()
     try:
-        m = inc.DNSIncoming(data, *LISTENER_ARGS) if listener_args else inc.DNSIncoming(data)
+        m = inc.DNSIncoming(data, *listener_args)
         m.answers()
     except Exception:  # noqa: BLE001 - reported by observe()
         pass
@@ -1155,6 +1243,133 @@ def deep_legal_cases(rng, tier):
     return res
 
 
+LARGS_ALL = (None, LISTENER_V4, LISTENER_V6, LISTENER_V6_SCOPE0, LISTENER_ARGS)
+
+
+def rdata_cut_cases():
+    """third review, finding 1 (seed C02-w5-seed1: `AttributeError` out of the constructor when the datagram ends inside AAAA rdata and
+    the listener's scope_id is passed).  Deterministic: a response of two records, the second of every kind the library decodes, cut at
+    **every** offset from the start of the second record to its end, each cut decoded plainly and with every listener-argument
+    variant (scope_id None / 0 / 3, two clocks); the same behind a question (records read by answers()) for two of the variants."""
+    def fixed(t, rd, cls=0x8001):
+        return struct.pack(">HHIH", t, cls, 120, len(rd)) + rd
+
+    first = b"\x01a\x05local\x00" + fixed(1, b"\x0a\x00\x00\x01")
+    ptr = b"\xc0\x0c"
+    kinds = [
+        ("a", fixed(1, b"\xc0\x00\x02\x07")),
+        ("aaaa-linklocal", fixed(28, bytes.fromhex("fe80000000000000021122fffe334455"))),
+        ("aaaa-global", fixed(28, bytes.fromhex("20010db8000000000000000000000007"))),
+        ("aaaa-v4mapped", fixed(28, bytes.fromhex("00000000000000000000ffffc0000207"))),
+        ("ptr", fixed(12, b"\x03srv" + ptr, 1)),
+        ("cname", fixed(5, b"\x01c" + ptr, 1)),
+        ("txt", fixed(16, b"\x03a=1\x00\x02b=")),
+        ("srv", fixed(33, struct.pack(">HHH", 1, 2, 8080) + b"\x04host" + ptr)),
+        ("hinfo", fixed(13, b"\x03cpu\x02os")),
+        ("nsec", fixed(47, ptr + b"\x00\x04\x40\x00\x00\x08\x01\x01\x80")),
+        ("unknown", fixed(99, b"\x01\x02\x03")),
+    ]
+    out = []
+    for name, rec in kinds:
+        for lazy in (False, True):
+            q = (b"\x01q\x00" + struct.pack(">HH", 255, 1)) if lazy else b""
+            head = struct.pack(">HHHHHH", 0, 0x8400 if not lazy else 0, 1 if lazy else 0, 2, 0, 0) + q
+            # with a question in front the first record's owner sits behind it: its pointer target moves
+            own = b"\xc0" + bytes([12 + len(q)])
+            body = head + first + own + rec.replace(ptr, own)
+            start = len(head) + len(first)
+            for cut in range(start, len(body) + 1):
+                for la in (LARGS_ALL if not lazy else (None, LISTENER_V6)):
+                    out.append(("rdata-cut", body[:cut], la if la is not None else False))
+    return out
+
+
+def raise_site_cases():
+    """third review, finding 2: every `raise` of `_decode_labels_at_offset` / `_read_name` reached deterministically, from each place a
+    name is read -- question (constructor's handler), record owner (eager: constructor's handler; behind a question: the handler of
+    answers()), PTR rdata (the per-record handler) -- decoded plainly and with two listener-argument variants.  A trigger is
+    (bytes of the name at its place, tail appended to the datagram and referenced by a pointer at the end of those bytes)."""
+    def ptr(o):
+        return struct.pack(">H", 0xC000 | o)
+
+    triggers = [
+        ("unencodable-label", lambda at: b"\x28" + b"\xff" * 40 + b"\x00", None),
+        ("unknown-label-type", lambda at: b"\x01a\x80", None),
+        ("pointer-beyond", lambda at: b"\x01a\xff\xff", None),
+        ("pointer-to-itself", lambda at: b"\x01a" + ptr(at + 2), None),
+        ("pointer-seen-again", lambda at: b"", lambda to, at: ptr(at)),
+        ("max-pointers", lambda at: b"", lambda to, at: b"".join(ptr(to + 2 * (i + 1)) for i in range(129)) + b"\x00"),
+        ("max-labels-129", lambda at: b"\x01a", lambda to, at: b"\x01b" * 128 + b"\x00"),
+        ("max-labels-130", lambda at: b"\x01a", lambda to, at: b"\x01b" * 129 + b"\x00"),
+        ("max-labels-201", lambda at: b"\x01a", lambda to, at: b"\x01b" * 200 + b"\x00"),
+        ("labels-128-name-too-long", lambda at: b"\x01a", lambda to, at: b"\x01b" * 127 + b"\x00"),
+        ("name-254-characters", lambda at: (b"\x3f" + b"x" * 63) * 3 + b"\x3d" + b"y" * 61 + b"\x00", None),
+        ("name-254-characters-through-pointer", lambda at: b"\x3d" + b"y" * 61, lambda to, at: (b"\x3f" + b"x" * 63) * 3 + b"\x00"),
+        ("runs-off-the-end", lambda at: b"\x01a", lambda to, at: b"\x3f" + b"z"),
+        ("second-pointer-byte-missing", lambda at: b"\x01a", lambda to, at: b"\xc0"),
+    ]
+    a_rec = struct.pack(">HHIH", 1, 1, 120, 4) + b"\x0a\x00\x00\x02"
+    out = []
+    for tname, pre_f, tail_f in triggers:
+        for place in ("question", "owner", "owner-lazy", "rdata", "rdata-lazy"):
+            lazy = place.endswith("lazy")
+            q = (b"\x01q\x00" + struct.pack(">HH", 12, 1)) if lazy else b""
+            if place == "question":
+                head, post = struct.pack(">HHHHHH", 0, 0, 1, 0, 0, 0), struct.pack(">HH", 12, 1)
+            elif place.startswith("owner"):
+                head, post = struct.pack(">HHHHHH", 0, 0 if lazy else 0x8400, 1 if lazy else 0, 2, 0, 0) + q, a_rec + b"\x01e\x00" + a_rec
+            else:
+                head = struct.pack(">HHHHHH", 0, 0 if lazy else 0x8400, 1 if lazy else 0, 2, 0, 0) + q + b"\x01o\x00" + struct.pack(">HHIH", 12, 1, 120, 0)
+                post = b"\x01e\x00" + a_rec
+            at = len(head)
+            name = pre_f(at)
+            if tail_f is not None:
+                to = at + len(name) + 2 + len(post)
+                name += ptr(to)
+                tail = tail_f(to, at)
+            else:
+                tail = b""
+            if place.startswith("rdata"):
+                head = head[:-2] + struct.pack(">H", len(name))
+            pkt = head + name + post + tail
+            for la in (False, LISTENER_V4, LISTENER_V6):
+                out.append(("raise-sites", pkt, la))
+    return out
+
+
+def text_form_cases():
+    """labels whose text has more than one Unicode normal form (third review: NFC-normalising the decoded label went unnoticed): base
+    letter + combining mark, the precomposed letter, Hangul jamo vs syllable, a singleton (OHM SIGN), a compatibility ligature, a
+    combining sequence in non-canonical order.  Strict-accepted PTR question + answer: the faithfulness oracle compares the names."""
+    forms = ["e\u0301", "\u00e9", "A\u030a", "\u00c5", "\u212b", "\u1112\u1161\u11ab", "\ud55c", "\u2126", "\ufb01", "q\u0323\u0307", "q\u0307\u0323",
+             "caf" + "e\u0301" * 3, "\u0041\u0300\u0041\u0301", "\u1e9b\u0323", "\u0958", "\u0915\u093c"]
+    out = []
+    for i, f in enumerate(forms):
+        lab = f.encode()
+        name = bytes([len(lab)]) + lab + b"\x05local\x00"
+        tgt = bytes([len(lab) + 1]) + b"x" + lab + b"\xc0\x0c"
+        pkt = (struct.pack(">HHHHHH", 0, 0x8400, 1, 1, 0, 0) + name + struct.pack(">HH", 12, 1)
+               + b"\xc0\x0c" + struct.pack(">HHIH", 12, 1, 120, len(tgt)) + tgt)
+        out.append(("text-forms", pkt, LISTENER_VARIANTS[i % 4] if i % 2 else False))
+    return out
+
+
+def uncached_chain_packet(nrec, hops=127, label=b"a"):
+    """the product term of the name decoder's budget (third review, finding 8): `nrec` PTR records whose rdata is a pointer to a backward
+    chain of `hops` nodes that ends in a reserved label type -- every record walks the whole chain again, because a failed name is
+    never cached.  nrec = 648 fills 8957 bytes: 2.4 million source lines, 84 000 activations on the pinned tree."""
+    pre = b"\x00" + struct.pack(">HHIH", 16, 1, 120, 0)
+    at = 12 + len(pre)
+    region, offs = bytearray(b"\x80\x00"), [at]
+    for _ in range(hops):
+        offs.append(at + len(region))
+        region += (bytes([len(label)]) + label if label else b"") + struct.pack(">H", 0xC000 | offs[-2])
+    pre = pre[:-2] + struct.pack(">H", len(region))
+    rec = b"\x00" + struct.pack(">HHIH", 12, 1, 120, 2) + struct.pack(">H", 0xC000 | offs[-1])
+    nrec = min(nrec, (8966 - 12 - len(pre) - len(region)) // len(rec))
+    return struct.pack(">HHHHHH", 0, 0x8400, 0, 1 + nrec, 0, 0) + pre + bytes(region) + rec * nrec
+
+
 ALPHABET = [0x00, 0x01, 0x3F, 0x40, 0xC0, 0x0C, 0xFF, 0x61]
 HEADERS = [struct.pack(">HHHHHH", 0, 0, 1, 0, 0, 0), struct.pack(">HHHHHH", 0, 0x8400, 0, 1, 0, 0)]
 
@@ -1205,6 +1420,10 @@ def sig_of(obs):
 def check_case(res, data, stream, obs, mline, sline, bline, model_ok=True, wline=None, wbline=None):
     """compare one datagram's observations; returns nothing, records into `res`"""
     case = {"hex": C.hx(data), "len": len(data), "stream": stream}
+    if obs.get("largs"):
+        # decoded as the listener does: DNSIncoming(data, source, scope_id, now) -- part of the input, replayed with it
+        case["largs"] = [list(obs["largs"][0]) if obs["largs"][0] is not None else None, obs["largs"][1], obs["largs"][2]]
+        res.count("decoded-with-listener-arguments")
     res.evaluations += 1
     res.count("stream:" + stream)
     # ---------------- O: the property's sentences on the implementation
@@ -1214,7 +1433,9 @@ def check_case(res, data, stream, obs, mline, sline, bline, model_ok=True, wline
         return
     if obs["status"] != "ok":
         res.violate("C02:escape:%s" % obs["exc"], "%s escapes %s for a %d-byte datagram (recursion depth %d)"
-                    % (obs["exc"], "DNSIncoming(data)" if obs["status"] == "init-raised" else "answers()", len(data), obs["depth"]), case)
+                    % (obs["exc"], ("DNSIncoming(data, %r, %r, %r)" % tuple(obs["largs"]) if obs.get("largs") else "DNSIncoming(data)")
+                       if obs["status"] == "init-raised" else "answers()" + (" of DNSIncoming(data, %r, %r, %r)" % tuple(obs["largs"]) if obs.get("largs") else ""),
+                       len(data), obs["depth"]), case)
     obj = obs["obj"]
     if obs.get("second") is not None:
         kind, what = obs["second"]
@@ -1608,12 +1829,16 @@ def pxd_pin(res):
         code = line.split("#")[0]
         if re.search(r"const\s+unsigned\s+char\s*\[:\]\s*view", code):
             continue
-        if re.search(r"\b(char|short|uchar|ushort|schar|sshort|int8_t|uint8_t|int16_t|uint16_t)\b", code):
+        # every C integer type must be *exactly* `unsigned int` / `cython.uint` (32 bits, unsigned: offsets, lengths, counts, links, the
+        # TTL up to 2**32-1, rdtypes up to 65535); `bint` / `double` / object types are fine.  What is left after removing the allowed
+        # spellings must not name any C integer type (third review, finding 6: `int ttl` passed the earlier 8/16-bit-only test)
+        rest = re.sub(r"\bunsigned\s+int\b|\bcython\.uint\b|\bbint\b|\bdouble\b", " ", code)
+        if re.search(r"\b(int|long|short|char|signed|unsigned|size_t|ssize_t|Py_ssize_t|u?int\d+_t|cython\.(u?int|u?long|u?short|u?char|s?char|u?longlong|size_t|Py_ssize_t))\b", rest):
             bad.append((no, line.strip()))
     res.count("pxd:integer-declarations-checked")
     for no, line in bad:
         res.disagree("pxd-types", {"file": "src/zeroconf/_protocol/incoming.pxd", "line": no}, line,
-                     "every C integer that holds an offset, length, count or pointer target is `unsigned int` (>= 16 383 + 65 535 must fit)")
+                     "every C integer declared in the file is exactly `unsigned int` / `cython.uint` (offsets + rdlength up to 16 383 + 65 535, TTL up to 2**32 - 1)")
 
 
 def guard_stream(res, driver_ok):
@@ -1702,6 +1927,17 @@ def gen_cases(tier, rng, budget, res):
         p, w = late_pointer_packet(rng, rng.choice([rng.randrange(0x1000, 0x2000), rng.randrange(0x2000, 8800), rng.randrange(8180, 8210)]),
                                    rng.choice([None, 8966, 8193]) , rng.choice([None, 0, 0xC0, 0x01]))
         yield ("late-pointer", p)
+    # deterministic families of the third review: truncation inside every rdata kind x listener arguments; every raise site from every
+    # place a name is read x listener arguments; labels with several Unicode normal forms; the uncached-chain worst case
+    for case in rdata_cut_cases():
+        yield case
+    for case in raise_site_cases():
+        yield case
+    for case in text_form_cases():
+        yield case
+    yield ("uncached-chain", uncached_chain_packet(648), False)
+    yield ("uncached-chain", uncached_chain_packet(200, 127, b""), LISTENER_V6)
+    yield ("uncached-chain", uncached_chain_packet(60, 100), LISTENER_V4)
     # deep legal chains: strict-accepted names through up to 128 backward hops / up to 126 labels
     for case in deep_legal_cases(rng, tier):
         yield case
@@ -1761,25 +1997,53 @@ def work_budget_line(b, o):
     return "c02wb %d %d %d %d %d %d %d %d %d %d %d" % (len(b), o["names"], o["acts"], o["reads"], w[0], w[1], w[2], w[3], w[4] // 8, w[5], o["steps"])
 
 
+_site_hits = {}
+
+
+def site_coverage(res):
+    """third review, finding 2: every raise / except / IndexError site of DNSIncoming must have been reached by this run both with and
+    without the listener's constructor arguments; a site nothing reached is code the run says nothing about -> broken tie (stage C)"""
+    req = raise_sites()["required"]
+    if not req:
+        res.disagree("raise-site-coverage", {"file": "src/zeroconf/_protocol/incoming.py"}, "class DNSIncoming could not be read", "its raise sites are enumerated from the AST")
+        return
+    rows = []
+    for site in sorted(req):
+        plain, with_args = _site_hits.get(site, [0, 0])
+        rows.append("%s %d/%d" % (site, plain, with_args))
+        res.count("site:%s:plain" % site, plain)
+        res.count("site:%s:listener-args" % site, with_args)
+        if plain == 0 or with_args == 0:
+            res.disagree("raise-site-coverage", {"site": site, "where": req[site]}, "reached by %d datagrams decoded plainly and %d decoded with the listener's arguments" % (plain, with_args),
+                         "every raise site, except handler and IndexError site of DNSIncoming is exercised in both ways on every run")
+    res.notes.append("raise-site coverage (datagrams reaching the site: plain / with listener arguments): " + "; ".join(rows))
+
+
 def process(res, cases, driver_ok, base):
     """one chunk: run the implementation, the model, the strict decoder and the budget predicate; compare"""
     obs = []
-    for i, (stream, b) in enumerate(cases):
+    cases = [c if len(c) == 3 else (c[0], c[1], None) for c in cases]
+    for i, (stream, b, fixed_largs) in enumerate(cases):
         i += base
         count_reads = (i % 3 == 0) or stream in ("graph", "chain") or stream.startswith("corpus")
-        largs = i % 5 == 1
+        # a case may name its listener arguments (the deterministic families do, for every variant); the others get them one time in five,
+        # cycling through the variants (IPv4 socket: scope_id None; IPv6: an interface index, 0 included)
+        largs = fixed_largs if fixed_largs is not None else (LISTENER_VARIANTS[(i // 5) % len(LISTENER_VARIANTS)] if i % 5 == 1 else False)
         # label reads (counting `bytes` subclass) and executed lines (line tracer) are measured on every case; every twelfth case is
         # decoded again without either: neither instrument may change behaviour
         o = observe(b, True, largs, steps=True)
         if i % 12 == 0 or count_reads and i % 4 == 0:
             o2 = observe(b, False, largs)
             o2["reads"] = o["reads"]
-            if o2 != {k: v for k, v in o.items() if k not in ("steps", "work")}:
+            if o2 != {k: v for k, v in o.items() if k not in ("steps", "work", "sites")}:
                 res.disagree("counting-bytes", {"hex": C.hx(b)}, _short(o2), _short(o))
         if o.get("steps") is not None and o["steps"] >= CPU_MIN_STEPS:
             o["cpu"] = cpu_check(b, o["steps"])
             res.count("cpu-checked")
+        for st in o.get("sites") or ():
+            _site_hits.setdefault(st, [0, 0])[1 if o.get("largs") else 0] += 1
         obs.append(o)
+    cases = [(stream, b) for stream, b, _l in cases]
     mlines = slines = blines = wlines = wblines = [None] * len(cases)
     if driver_ok:
         try:
@@ -1835,6 +2099,7 @@ def run(ctx):
                 "at offsets >= 0x1000 / 0x2000 / 8192 and referenced by pointers afterwards; exhaustive strings over {00,01,3F,40,C0,0C,FF,'a'} behind two fixed headers); "
                 "non-trivial = distinct (outcome, exception, valid, recursion depth, #questions, record kinds, strict-accepted) signature")
     chunk, base = [], 0
+    _site_hits.clear()
     for case in gen_cases(tier, rng, budget, res):
         chunk.append(case)
         if len(chunk) >= 20000:
@@ -1850,6 +2115,10 @@ def run(ctx):
     textlayer.reencode_stream(res, rng, tier, driver_ok, rlabel)
     guard_stream(res, driver_ok)
     pxd_pin(res)
+    site_coverage(res)
+    if loop_lines() is None:
+        res.disagree("loop-shape", {"file": "src/zeroconf/_protocol/incoming.py"}, "no `for` loop in _read_questions / _read_others, or no while > for > for > if nest in _read_bitmap",
+                     "the loop counters and the line budget (C02:budget:loops, C02:budget:lines) are measured at these loops: without them that part of the oracle did not run")
     res.notes.append("largest message on which the library agreed with the strict parser: %d records, %d questions; deepest agreeing pointer chain: nesting %d "
                      "(= %d hops; the strict parser allows 128); longest agreeing name in a message with compressed names: %d labels"
                      % (res.streams.get("max-agreeing-records", 0), res.streams.get("max-agreeing-questions", 0), res.streams.get("max-agreeing-nesting", 0),
@@ -1862,12 +2131,13 @@ def run(ctx):
                          "%d (%.0f %%) carry a label that cannot be written back and are outside the `reencodable` proviso (not judged)"
                          % (acc, inscope, 100.0 * inscope / acc, mixed, 100.0 * mixed / acc, res.dist.get("strict-accepted-mixed-agree", 0), unenc, 100.0 * unenc / acc))
     res.notes.append("work besides the name decoder (measured on the implementation with a line tracer, compared with the model's counters on every datagram): "
-                     "at most %d source lines of the package per datagram (a %d-byte one); largest loop counters: %s; %d decodes of >= %d lines also held to the "
+                     "the most expensive datagram GENERATED in this run cost %d source lines of the package (a %d-byte one; this is the generators' maximum, not a bound "
+                     "on the decoder: the bound is C02_lines_8966); largest loop counters: %s; %d decodes of >= %d lines also held to the "
                      "CPU-time yardstick (%d yardstick lines per executed line + %.2f s)"
                      % (res.streams.get("max-steps", 0), res.streams.get("max-steps-len", 0),
                         ", ".join("%s=%d" % (k, res.streams.get("max-" + k, 0)) for k in WORK_KEYS), res.dist.get("cpu-checked", 0), CPU_MIN_STEPS, CPU_SLACK, CPU_FLOOR_S))
     if loop_lines() is None:
-        res.notes.append("the loops of _read_questions/_read_others/_read_bitmap were not found in the shape the tracer expects: loop counters not measured, line budget not evaluated")
+        res.notes.append("the loops of _read_questions/_read_others/_read_bitmap were not found: loop counters not measured, line budget NOT evaluated (reported as broken tie `loop-shape`)")
     res.notes.append("RFC 1035 name-length rule (255 wire octets) vs the 253-character rule of the property: %d RFC-legal datagrams rejected only because of "
                      "a 254-character name, %d datagrams accepted although a name exceeds 255 octets (reading, see ASSUMPTIONS)"
                      % (res.dist.get("rfc1035:legal-name-of-254-characters-rejected-by-the-253-rule", 0),
@@ -1898,8 +2168,9 @@ def replay(body):
                 "decoded_alone": _short(alone["obj"]), "decoded_interleaved": _short(views.get(il["which"])),
                 "model_disagrees": bool(res.disagreements)}
     data = bytes.fromhex(case["hex"]) if case.get("hex", "-") != "-" else b""
-    o = observe(data, True, steps=True)
-    out = {"len": len(data), "status": o["status"], "exception": o["exc"], "depth": o["depth"], "activations": o["acts"], "names": o["names"],
+    largs = largs_of(case.get("largs"))
+    o = observe(data, True, largs, steps=True)
+    out = {"listener_args": list(largs) if largs else None, "len": len(data), "status": o["status"], "exception": o["exc"], "depth": o["depth"], "activations": o["acts"], "names": o["names"],
            "reads": o["reads"], "valid": o["obj"]["valid"] if o["obj"] else None, "steps": o.get("steps"),
            "loops": dict(zip(WORK_KEYS, o["work"])) if o.get("work") else None}
     if o.get("steps"):
